@@ -1,7 +1,7 @@
 SPECIFICATION Spec
 CONSTANTS
   Cycs = {1, 2, 3, 4, 5, 6, 7, 8, 12, 16, 31}
-  Dels = {0, 1, 2, 3, 7, 40}
+  Dels <- DelsThorough
   Reps <- RepsThorough
   Defects = {}
 INVARIANTS ImplIsDesign InRange PreIff EndIff Terminal Linear HoldAtEnd PeakAtHalf Mirror Periodic Flags TotalAgrees
